@@ -18,6 +18,9 @@ class LazyIter(IterModel):
         self.count = count
 
 
+_IT = [None]
+
+
 def as_lazy(v):
     if isinstance(v, LazyIter):
         return v
@@ -28,6 +31,19 @@ def as_lazy(v):
         if lo.conc and hi.conc:
             return LazyIter([Int(i, lo.w, lo.s) for i in range(lo.v, hi.v)])
         raise Inconclusive('symbolic range iteration')
+    if isinstance(v, Adt) and _IT[0] is not None and _IT[0].resolve('<%s as std::iter::Iterator>::next' % v.ty):
+        # an iterator type of the crate under test: run its real `next` until exhaustion (finite iterators only)
+        it = _IT[0]
+        cell = Cell('iter', v)
+        items = []
+        while True:
+            r = it.call('<%s as std::iter::Iterator>::next' % v.ty, [Ptr(cell)], None)
+            if r.variant == 0:
+                break
+            items.append(r.fields[0])
+            if len(items) > 4096:
+                raise Inconclusive('iterator does not terminate within 4096 items')
+        return LazyIter(items)
     raise Inconclusive('not an iterator model: %r' % (v,))
 
 
@@ -148,6 +164,11 @@ def m_rev(it, a, ty, callee):
 def m_next(it, a, ty, callee):
     p = a[0]
     li = it.load(p)
+    if not isinstance(li, IterModel):
+        name = it.resolve(callee)
+        if name is None:
+            raise Inconclusive('Iterator::next on %r' % (li,))
+        return it.call_body(it.bodies[name], a)
     if not isinstance(li, LazyIter):
         return m_iter_next(it, a, ty, callee)
     li2, x = pull(it, li)
@@ -638,6 +659,50 @@ def m_sort_by(it, a, ty, callee):
     return UNIT
 
 
+def m_flat_map(it, a, ty, callee):
+    out = []
+    for x in drain(it, as_lazy(a[0])):
+        sub = it.call_value(a[1], [x], None)
+        if not isinstance(sub, IterModel):
+            sub = m_into_iter(it, [sub], None, callee)
+        out.extend(drain(it, as_lazy(sub)))
+    return LazyIter(out)
+
+
+def m_binary_search_by(it, a, ty, callee):
+    """std's algorithm transcribed (library/core/src/slice/mod.rs, the branch-free version used since Rust 1.82),
+    not its contract: on unsorted input it behaves like std does"""
+    from ..values import res_ok, res_err
+    p, f = a
+    items = slice_items(it, p)
+    size = len(items)
+    if size == 0:
+        return res_err(usize(0))
+    base = 0
+    while size > 1:
+        half = size // 2
+        mid = base + half
+        c = it.call_value(f, [items[mid]], 'std::cmp::Ordering')
+        base = base if c.variant == 2 else mid
+        size -= half
+    c = it.call_value(f, [items[base]], 'std::cmp::Ordering')
+    if c.variant == 1:
+        return res_ok(usize(base))
+    return res_err(usize(base + (1 if c.variant == 0 else 0)))
+
+
+def m_retain(it, a, ty, callee):
+    p, f = a
+    v = it.load(p)
+    keep = []
+    for x in v.fields:
+        c = Cell('elem', x)
+        if it.branch(it.call_value(f, [Ptr(c)], None)):
+            keep.append(c.val)
+    it.store(p, Seq(keep, v.kind))
+    return UNIT
+
+
 def m_chain(it, a, ty, callee):
     xs = drain(it, as_lazy(a[0]))
     second = a[1]
@@ -645,6 +710,15 @@ def m_chain(it, a, ty, callee):
         second = m_into_iter(it, [second], None, callee)
     ys = drain(it, as_lazy(second))
     return LazyIter(xs + ys)
+
+
+def m_vec_truncate(it, a, ty, callee):
+    p, n = a
+    v = it.load(p)
+    if not n.conc:
+        raise Inconclusive('Vec::truncate(symbolic)')
+    it.store(p, Seq(v.fields[:n.v], v.kind))
+    return UNIT
 
 
 def m_vec_clear(it, a, ty, callee):
@@ -655,8 +729,12 @@ def m_vec_clear(it, a, ty, callee):
 
 def install(it):
     A = it.add_model
+    _IT[0] = it
     A(r'std::(vec::Vec|collections::VecDeque)::<.*>::clear', m_vec_clear)
+    A(r'std::(vec::Vec|collections::VecDeque)::<.*>::retain(_mut)?::<.*>', m_retain)
+    A(r'std::(vec::Vec|collections::VecDeque)::<.*>::truncate', m_vec_truncate)
     A(r'(?:core|std)::slice::<impl \[.*\]>::sort_by_key::<.*>', m_sort_by_key)
+    A(r"(?:core|std)::slice::<impl \[.*\]>::binary_search_by::<.*>", m_binary_search_by)
     A(r'(?:core|std)::slice::<impl \[.*\]>::sort(_unstable)?_by::<.*>', m_sort_by)
     A(r'std::cmp::Reverse', lambda it, a, ty, c: Adt('std::cmp::Reverse', 0, [a[0]]))
     A(r'<std::vec::Vec<.*> as std::convert::AsRef<\[.*\]>>::as_ref', m_vec_deref)
@@ -689,6 +767,7 @@ def install(it):
         A(r'<.* as std::iter::Iterator>::%s(::<.*>)?' % k, m_stage(k))
     A(r'<.* as std::iter::Iterator>::rev', m_rev)
     A(r'<.* as std::iter::Iterator>::chain::<.*>', m_chain)
+    A(r'<.* as std::iter::Iterator>::flat_map::<.*>', m_flat_map)
     A(r'<.* as std::iter::Iterator>::next', m_next)
     A(r'<.* as std::iter::Iterator>::collect::<.*>', m_collect)
     A(r'<.* as std::iter::Iterator>::last', m_last)
